@@ -65,7 +65,7 @@ theorem C01_wire_only_grows (s s' : St α) (a : Act α) (h : step s a = some s')
 
 /-- non-vacuity: two writers, capacity 1, the second enqueue happens while the sender is mid-batch -/
 example : (run (init false 1 true : St Nat)
-    [.enqueue 1, .casWriter, .exec, .sndRecv, .enqueue 2, .casWriter, .sndWritev true, .sndPut, .sndLen1, .sndRecv, .sndWritev true]).map
+    [.beginWrite, .beginWrite, .enqueue 1, .casWriter, .exec, .sndRecv, .enqueue 2, .casWriter, .sndWritev true, .sndPut, .sndLen1, .sndRecv, .sndWritev true]).map
       (fun s => (s.wire, s.accepted, s.q)) = some ([1, 2], [1, 2], []) := by decide
 
 end NettyVerif.C01
